@@ -107,6 +107,18 @@ ChunkPass(b, pos, room, chunks, dts, ok) ==
             IN  ChunkPass(b, pos + 2, room - ChunkSpan(c), Append(chunks, c),
                           dts \o DeltaTypesOf(st), ok /\ clean)
 
+\* lenient form used to judge whatever the library accepts: zero-length runs
+\* are walked over; fits = every chunk lies inside b; clean = no vector symbol
+\* beyond the status count is set
+RECURSIVE ChunkPassL(_, _, _, _, _, _)
+ChunkPassL(b, pos, room, chunks, dts, clean) ==
+  IF room <= 0 THEN [fits |-> TRUE, clean |-> clean, chunks |-> chunks, dts |-> dts, pos |-> pos]
+  ELSE IF pos + 2 > Len(b) THEN [fits |-> FALSE, clean |-> clean, chunks |-> chunks, dts |-> dts, pos |-> pos]
+  ELSE LET c == DecChunkWord(U16At(b, pos))
+           st == ChunkStatuses(c, room)
+           cl == c.ct = "sv" => \A j \in 1..Len(c.syms) : j > room => c.syms[j] = 0
+       IN  ChunkPassL(b, pos + 2, room - ChunkSpan(c), Append(chunks, c), dts \o DeltaTypesOf(st), clean /\ cl)
+
 RECURSIVE DeltaPass(_, _, _, _)
 DeltaPass(b, pos, dts, acc) ==
   IF dts = << >> THEN [ok |-> TRUE, deltas |-> acc, pos |-> pos]
